@@ -2,12 +2,15 @@
 (* Trace specification for C16.  trace.ndjson holds reset-delimited traces recorded by
    harness/cmd/bfdfsm from the real router/bfd code:
 
+     (every reset record carries kind, rxms = the session's Required Min RX Interval in ms, lmult = its
+      Detect Mult)
      kind = "table"    rows  tr(st, e, next, panic) of the real transition function;
      kind = "session" / "pair"   the life of ONE real Session:
         pkt     a control packet handed to ReceiveMessage + the real admission decision (discard)
         recv    (hook, inside Session.Run) the packet was processed: message state / discriminators,
                 local state, recorded remote state and remote discriminator AFTER the step
-        timer   (hook) the detection time expired; state after the step
+        timer   (hook) the detection time expired; state after the step; el = ms since the last accepted
+                packet was handed in (-1: not tracked)
         send    (hook) a control packet is being sent: its state / discriminators
         notimer the driver sent nothing for 10 s after a packet announcing a 2 ms detection time
                 and no expiry happened
@@ -18,7 +21,7 @@
    Monitor (VERIF-BAD): every recv / timer step is the RFC 5880 6.8.6 transition (BFDOps!Rfc), RFC
    admission rules, sent packets carry the local state (and a Your Discriminator when Init / Up),
    expiry happens, the session is Up after the quiet period.  Timing is not judged: a timer step is
-   accepted at any point.  Details outside the property (how the remote discriminator is tracked,
+   accepted at any point.  Details outside the property (clearing the remote discriminator on expiry,
    packets using unsupported features, the table's own AdminDown/AdminUp events) are VERIF-DRIFT. *)
 EXTENDS BFDOps, TLC, Json
 
@@ -26,19 +29,25 @@ Trace == ndJsonDeserialize("trace.ndjson")
 
 VARIABLES local,    \* model state of the session
           rd,       \* remote discriminator as last reported by the implementation
-          pend,     \* accepted packets not yet processed (FIFO of [state, my, your])
-          kind, failed, l
-vars == <<local, rd, pend, kind, failed, l>>
+          pend,     \* accepted packets not yet processed (FIFO of [state, my, your, mult, dtxms])
+          det,      \* [ms, mult]: detection time announced by the last processed packet (ms = -1: not judged)
+          cfg,      \* [kind, rxms, lmult] of the current trace
+          failed, l
+vars == <<local, rd, pend, det, cfg, failed, l>>
+kind == cfg.kind
+NoDet == [ms |-> -1, mult |-> 0]
 R == Trace[l]
 
-Init == local = "Down" /\ rd = 0 /\ pend = <<>> /\ kind = "none" /\ failed = FALSE /\ l = 1
+Init == /\ local = "Down" /\ rd = 0 /\ pend = <<>> /\ det = NoDet
+        /\ cfg = [kind |-> "none", rxms |-> 0, lmult |-> 0] /\ failed = FALSE /\ l = 1
 
 Bad(key) == /\ PrintT(<<"VERIF-BAD", l, key>>)
             /\ failed' = TRUE
-            /\ UNCHANGED <<local, rd, pend, kind>>
+            /\ UNCHANGED <<local, rd, pend, det, cfg>>
 Drift(ok, key) == IF ok THEN TRUE ELSE PrintT(<<"VERIF-DRIFT", l, key>>)
 
-Reset == local' = "Down" /\ rd' = 0 /\ pend' = <<>> /\ kind' = R.kind /\ failed' = FALSE
+Reset == /\ local' = "Down" /\ rd' = 0 /\ pend' = <<>> /\ det' = NoDet
+         /\ cfg' = [kind |-> R.kind, rxms |-> R.rxms, lmult |-> R.lmult] /\ failed' = FALSE
 
 -----------------------------------------------------------------------------
 (* the transition table: the four received-state events in Down / Init / Up and the timer must be the
@@ -47,15 +56,15 @@ Reset == local' = "Down" /\ rd' = 0 /\ pend' = <<>> /\ kind' = R.kind /\ failed'
 Tr == LET st == StateName(R.st)
           ev == StateName(R.e) IN
       IF st \notin States \/ ev \notin (Events \cup {"AdminUp"})
-        THEN /\ Drift(R.panic, "table:unknown-state-or-event-accepted") /\ UNCHANGED <<local, rd, pend, kind, failed>>
+        THEN /\ Drift(R.panic, "table:unknown-state-or-event-accepted") /\ UNCHANGED <<local, rd, pend, det, cfg, failed>>
       ELSE IF R.panic THEN Bad("table:panic:st=" \o st \o ",ev=" \o ev)
       ELSE IF ev = "AdminUp" \/ ev = "AdminDown" \/ st = "AdminDown"
         THEN /\ Drift(IF ev = "AdminUp" THEN TRUE ELSE StateName(R.next) = Rfc(st, ev),
                       "table:st=" \o st \o ",ev=" \o ev \o ",next=" \o StateName(R.next))
-             /\ UNCHANGED <<local, rd, pend, kind, failed>>
+             /\ UNCHANGED <<local, rd, pend, det, cfg, failed>>
       ELSE IF StateName(R.next) # Rfc(st, ev)
         THEN Bad("table:st=" \o st \o ",ev=" \o ev \o ",next=" \o StateName(R.next) \o ",want=" \o Rfc(st, ev))
-      ELSE UNCHANGED <<local, rd, pend, kind, failed>>
+      ELSE UNCHANGED <<local, rd, pend, det, cfg, failed>>
 
 -----------------------------------------------------------------------------
 Unsupported == R.auth \/ R.poll \/ R.final \/ R.echo \/ R.demand
@@ -70,50 +79,71 @@ Pkt == LET p == [ver |-> R.ver, lenok |-> TRUE, mult |-> R.mult, multipoint |-> 
        ELSE IF ~RfcDiscard(p) /\ ~Unsupported /\ R.discard
          THEN Bad("admit:discarded-a-valid-packet:state=" \o p.state \o
                   (IF p.your = 0 THEN ",your=0" ELSE ""))
-       ELSE /\ pend' = IF R.discard THEN pend ELSE Append(pend, [state |-> p.state, my |-> R.my, your |-> R.your])
+       ELSE /\ pend' = IF R.discard THEN pend
+                       ELSE Append(pend, [state |-> p.state, my |-> R.my, your |-> R.your, mult |-> R.mult, dtxms |-> R.dtxms])
             /\ Drift(~(Unsupported /\ ~RfcDiscard(p) /\ R.discard), "admit:unsupported-feature-discarded")
-            /\ UNCHANGED <<local, rd, kind, failed>>
+            /\ UNCHANGED <<local, rd, det, cfg, failed>>
 
+DiscName(d) == CASE d = 0 -> "zero" [] d = 1 -> "own" [] d = 2 -> "peer" [] OTHER -> "other"
 Recv == LET ms == StateName(R.state)
             got == StateName(R.local)
             want == Rfc(local, ms) IN
         IF pend = <<>> THEN Bad("recv:no-packet-was-handed-in")
-        ELSE IF Head(pend) # [state |-> ms, my |-> R.my, your |-> R.your] THEN Bad("recv:not-the-next-packet")
+        ELSE IF [state |-> Head(pend).state, my |-> Head(pend).my, your |-> Head(pend).your]
+                  # [state |-> ms, my |-> R.my, your |-> R.your] THEN Bad("recv:not-the-next-packet")
         ELSE IF got # want
           THEN Bad("recv:state=" \o ms \o ":local=" \o local \o "->" \o got \o ",want=" \o want)
         ELSE IF R.remote # R.state THEN Bad("recv:remote-state-not-recorded:state=" \o ms)
+        \* RFC 5880 6.8.6: "Set bfd.RemoteDiscr to the value of My Discriminator" - for every accepted
+        \* packet; a session that keeps a stale value echoes a Your Discriminator its (restarted or
+        \* spoofed-against) RFC peer must discard, and never comes Up again (BFDMC.stale.cfg)
+        ELSE IF R.rdisc # R.my
+          THEN Bad("recv:remote-discriminator-not-set-from-packet:had=" \o DiscName(rd) \o ",my=" \o DiscName(R.my))
         ELSE /\ local' = got /\ rd' = R.rdisc /\ pend' = Tail(pend)
-             /\ Drift(R.rdisc = (IF rd = 0 THEN R.my ELSE rd), "recv:remote-discriminator-tracking")
-             /\ UNCHANGED <<kind, failed>>
+             \* RFC 5880 6.8.4: Detection Time = received Detect Mult x max(local Required Min RX
+             \* Interval, received Desired Min TX Interval); re-armed by every accepted packet
+             /\ det' = [ms |-> Head(pend).mult * (IF cfg.rxms > Head(pend).dtxms THEN cfg.rxms ELSE Head(pend).dtxms),
+                        mult |-> Head(pend).mult]
+             /\ UNCHANGED <<cfg, failed>>
 
+LateSlackMs == 5000
+MultClass == (IF det.mult > cfg.lmult THEN "remote-mult>local-mult"
+              ELSE IF det.mult < cfg.lmult THEN "remote-mult<local-mult" ELSE "remote-mult=local-mult")
+             \o (IF det.ms = det.mult * cfg.rxms THEN ",local-rx-interval" ELSE ",remote-tx-interval")
 Timer == LET got == StateName(R.local)
              want == Rfc(local, "Timer") IN
          IF got # want THEN Bad("timer:local=" \o local \o "->" \o got \o ",want=" \o want)
-         ELSE /\ local' = got /\ rd' = R.rdisc
+         \* a timer never fires early, and el is measured from before the timer was armed: an expiry seen
+         \* before the detection time is wrong whatever the machine load; lateness is judged with 5 s slack
+         ELSE IF R.el >= 0 /\ det.ms >= 0 /\ R.el < det.ms
+           THEN Bad("timer:expired-before-detection-time:" \o MultClass)
+         ELSE IF R.el >= 0 /\ det.ms >= 0 /\ R.el > det.ms + LateSlackMs
+           THEN Bad("timer:expired-long-after-detection-time:" \o MultClass)
+         ELSE /\ local' = got /\ rd' = R.rdisc /\ det' = NoDet
               /\ Drift(R.rdisc = 0, "timer:remote-discriminator-not-cleared")
-              /\ UNCHANGED <<pend, kind, failed>>
+              /\ UNCHANGED <<pend, cfg, failed>>
 
 Send == IF StateName(R.state) # local
           THEN Bad("send:state=" \o StateName(R.state) \o ",local=" \o local)
         ELSE IF R.my # 1 THEN Bad("send:my-discriminator-is-not-the-local-one")
         ELSE IF R.your = 0 /\ local \in {"Init", "Up"} THEN Bad("send:your-discriminator-zero:state=" \o local)
         ELSE /\ Drift(R.your = rd, "send:your-discriminator-differs-from-remote-discriminator")
-             /\ UNCHANGED <<local, rd, pend, kind, failed>>
+             /\ UNCHANGED <<local, rd, pend, det, cfg, failed>>
 
 Settle == IF ~R.up \/ local # "Up" THEN Bad("recover:not-up-after-quiet-period:local=" \o local)
           ELSE /\ Drift(R.isup, "settle:IsUp-differs-from-hook-state")
-               /\ UNCHANGED <<local, rd, pend, kind, failed>>
+               /\ UNCHANGED <<local, rd, pend, det, cfg, failed>>
 
 Step == /\ l <= Len(Trace)
         /\ l' = l + 1
         /\ IF R.ev = "reset" THEN Reset
-           ELSE IF failed THEN UNCHANGED <<local, rd, pend, kind, failed>>
+           ELSE IF failed THEN UNCHANGED <<local, rd, pend, det, cfg, failed>>
            ELSE CASE R.ev = "tr" -> Tr
                   [] R.ev = "pkt" -> Pkt
                   [] R.ev = "recv" -> Recv
                   [] R.ev = "timer" -> Timer
                   [] R.ev = "send" -> Send
-                  [] R.ev = "quiet" -> UNCHANGED <<local, rd, pend, kind, failed>>
+                  [] R.ev = "quiet" -> UNCHANGED <<local, rd, pend, det, cfg, failed>>
                   [] R.ev = "settle" -> Settle
                   [] R.ev = "notimer" -> Bad("timer:no-expiry-after-detection-time:local=" \o local)
                   [] R.ev = "stuck" -> Bad("stuck:" \o R.what)
